@@ -81,6 +81,8 @@ func seqJobList(prop, tier string) []*SeqJob {
 	switch prop {
 	case "C01":
 		return c01SeqJobs(tier)
+	case "C07":
+		return []*SeqJob{c07SeqJob(tier)}
 	case "C02":
 		return c02SeqJobs(tier)
 	case "C03":
